@@ -5,7 +5,7 @@
 From Boreal Require Import Base.Prelude Spec.Regex Model.Hir Model.Widen Model.Validator Model.SimpleValidator Model.Raw
   Model.HirScan Model.Decomp Model.HexCase
   Proofs.HexScanProofs Proofs.SimpleProofs Proofs.ValidatorProofs Proofs.DecompProofs Proofs.HexProofs Proofs.HexHirProofs
-  Proofs.HexWitnesses.
+  Proofs.AltsProofs Proofs.SpanProofs Proofs.HexWitnesses.
 From Coq Require Import Sorted.
 
 (* Ordered, one match per offset: every string that goes through the Aho-Corasick pass, any
@@ -78,6 +78,40 @@ Theorem C02_flat_hex_exact :
     map fst r = filter (fun o => nonempty (ends (flags_of md) mem (HConcat (A ++ R ++ B)) o)) (iota 0 (nlen mem))
     /\ Forall (fun y => In (snd y) (Lens (flags_of md) mem (HConcat (A ++ R ++ B)) (fst y))) r.
 Proof. exact flat_hex_exact. Qed.
+
+(* When is a decomposition whose literals come from an alternation sound?  Whenever the literal part has a
+   fixed length and the literals are exactly its language; instance: an alternation of runs of single-byte
+   parts of one common length, anywhere in a pattern.  (The open finding alt-glue is the negation: branches,
+   or used parts of cut branches, of different lengths.) *)
+Theorem C02_fixed_part_glue :
+  forall md mem, m_nocase md = false ->
+  forall A R B lits L, fixed_len md mem R L -> lits_exact md mem R lits L -> (forall l, In l lits -> nlen l = L) ->
+    DecompGlue md mem (HConcat (A ++ R ++ B)) lits (pre_of A R) (post_of R B).
+Proof. exact fixed_glue. Qed.
+
+Theorem C02_equal_alt_glue :
+  forall md mem, m_nocase md = false -> bytes_ok mem ->
+  forall brs L, Forall (fun br => forallb is_leaf br = true) brs -> Forall (fun br => nlen br = L) brs ->
+  forall A B, 0 < L ->
+    DecompGlue md mem (HConcat (A ++ alt_part brs ++ B)) (alt_lits md brs) (pre_of A (alt_part brs)) (post_of (alt_part brs) B).
+Proof. exact equal_alt_glue. Qed.
+
+Theorem C02_equal_alt_split :
+  forall md mem, m_nocase md = false -> bytes_ok mem ->
+  forall brs L, Forall (fun br => forallb is_leaf br = true) brs -> Forall (fun br => nlen br = L) brs ->
+  forall A B, 0 < L -> nlen mem <= MAX_SPLIT_MATCH_LENGTH ->
+    DecompSplit md mem (HConcat (A ++ alt_part brs ++ B)) (alt_lits md brs) (pre_of A (alt_part brs)) (post_of (alt_part brs) B).
+Proof. exact equal_alt_split. Qed.
+
+(* spans: every match recorded by the AC path of a non-nullable pattern has positive length and lies inside
+   the input (the contract C14's record theorem asks of a matcher) *)
+Theorem C02_atomized_spans_ok :
+  forall use_sp d mem max_nb,
+    plain (s_mods d) -> atoms_ok d -> kind_ok d ->
+    (s_kind d = KGreedy \/ DecompGlue (s_mods d) mem (s_hir d) (s_lits d) (s_pre d) (s_post d)) ->
+    non_nullable (s_mods d) mem (s_hir d) ->
+    Forall (fun y => 0 < snd y /\ fst y + snd y <= nlen mem) (ac_scan use_sp d mem max_nb).
+Proof. exact atomized_spans_ok. Qed.
 
 (* The simple byte walker (validator/simple.rs), whenever SimpleValidator::new accepts the HIR, returns
    what the DFA validator returns: the choice made by HalfValidator::new never changes a result. *)
@@ -158,6 +192,10 @@ Print Assumptions C02_atomized_exact.
 Print Assumptions C02_flat_decomp_glue.
 Print Assumptions C02_flat_decomp_split.
 Print Assumptions C02_flat_hex_exact.
+Print Assumptions C02_fixed_part_glue.
+Print Assumptions C02_equal_alt_glue.
+Print Assumptions C02_equal_alt_split.
+Print Assumptions C02_atomized_spans_ok.
 Print Assumptions C02_simple_fwd_correct.
 Print Assumptions C02_simple_rev_correct.
 Print Assumptions C02_hex_hir_tame.
